@@ -4,6 +4,7 @@ use vcore::runner::{install_panic_hook, Ctx};
 
 fn dispatch(ctx: &Ctx) {
     match ctx.prop.as_str() {
+        "C04" => vcore::c04::run(ctx),
         "C05" => vcore::c05::run(ctx),
         "C10" => vcore::c10::run(ctx),
         "C11" => vcore::c11::run(ctx),
